@@ -9,7 +9,7 @@
     ([Hyps.uniformb], [Hyps.wf_shapeb]). *)
 From Coq Require Import List Bool Arith.
 From V.C09 Require Import Analysis.
-From V.C06 Require Import Linearity Token Hyps ProofsBlock ProofsFlow ProofsSound ProofsHyps.
+From V.C06 Require Import Linearity Token Hyps ProofsBlock ProofsFlow ProofsSound ProofsComplete ProofsHyps.
 Import ListNotations.
 
 (** Soundness, unconditional on reachability of the exit, for the code with and without
@@ -95,3 +95,83 @@ Theorem released_rejects_rebinding_refuted :
 Proof. split; [vm_compute; reflexivity|]. split; [vm_compute; reflexivity|].
   eexists. split; [vm_compute; reflexivity|]. vm_compute. reflexivity. Qed.
 Print Assumptions released_rejects_rebinding_refuted.
+
+(** Completeness of the code with fix-1 ([fx = true]) on the core fragment, under
+    H_exit ([all_reach]: every block is reachable from the entry and reaches the exit along
+    real edges; [c_exit_reachable] is the flag check_cfg_linearity reads): if no path violates
+    the token discipline or the ownership rules -- no prefix from the entry is [Bad], and every
+    complete path ends in a good exit state -- then the checker accepts, unless it crashes
+    (a place in no scope: an ill-typed checked CFG, which the front end never produces).
+    [events_wf]: every assignment event is followed by the visit_Assign test of its target and a
+    place is handed back only after it was borrowed in the same block (the shape of
+    [flat_map ev_stmt], evaluated by the harness on every CFG as [events_wfb]);
+    [io_ok]: a leaf flagged as borrowed variable is a borrowed function input.
+    Without H_exit the statement is false for the real checker and for the model
+    (`q = qubit(); while True: pass` has no complete path and is rejected): see
+    [complete_needs_h_exit]. *)
+Theorem lin_complete : forall c sched K, uniform K c -> wf_shape c -> io_ok c -> events_wf c ->
+  c_exit_reachable c = true -> all_reach c -> ~ violated K c ->
+  check_cfg true c sched = Accept \/ crashed (check_cfg true c sched).
+Proof. exact lin_complete_lemma. Qed.
+Print Assumptions lin_complete.
+
+(* the hypotheses of [lin_complete] are satisfiable (same instance as for soundness) *)
+Example ex_complete_hyps : io_ok ex_cfg /\ events_wf ex_cfg /\ c_exit_reachable ex_cfg = true /\ all_reach ex_cfg.
+Proof.
+  split; [apply io_okb_sound; vm_compute; reflexivity|].
+  split; [apply events_wfb_sound; vm_compute; reflexivity|].
+  split; [reflexivity|].
+  intros b Hb. change (length (c_blocks ex_cfg)) with 5 in Hb.
+  assert (R4 : reaches_exit ex_cfg 4) by (apply re_step with (n := 1); [simpl; auto | apply (re_exit ex_cfg)]).
+  assert (R2 : reaches_exit ex_cfg 2) by (apply re_step with (n := 4); [simpl; auto | exact R4]).
+  destruct b as [|[|[|[|[|b]]]]]; try (exfalso; apply (Nat.lt_irrefl 5); eapply Nat.le_lt_trans; [|exact Hb]; repeat apply le_n_S; apply Nat.le_0_l).
+  - split; [exists []; simpl; auto | apply re_step with (n := 2); [simpl; auto | exact R2]].
+  - split; [exists [2; 4; 1]; simpl; auto 10 | apply (re_exit ex_cfg)].
+  - split; [exists [2]; simpl; auto | exact R2].
+  - split; [exists [2; 3]; simpl; auto 10 | apply re_step with (n := 2); [simpl; auto | exact R2]].
+  - split; [exists [2; 4]; simpl; auto 10 | exact R4].
+Qed.
+
+(* the rejected variant violates the discipline, as completeness says it must: the complete
+   path 0 -> 2 -> 4 -> 1 ends with the linear leaf s.b (id 4) still full *)
+Example ex_leak_violates : violated (K_of (all_leaves ex_leak)) ex_leak.
+Proof.
+  right. exists [2; 4; 1], 0. eexists. split; [simpl; auto 10|]. split; [reflexivity|].
+  split; [vm_compute; reflexivity|].
+  intros F. destruct (F 4) as [_ G]; [vm_compute; discriminate|].
+  assert (In 4 (borrowed_ids ex_leak)) by (apply G; vm_compute; reflexivity).
+  vm_compute in H. destruct H as [H | []]. discriminate.
+Qed.
+
+(** the boundary: without H_exit completeness fails.  `def f() -> None: q = qubit(); while True: pass`
+    (ids: q = 0; blocks 0 entry -> 2, 1 exit (unreachable), 2 loop -> 2): no path prefix
+    violates anything and there is no complete path, yet the checker rejects q as leaked. *)
+Definition wt_cfg : lcfg :=
+  mkLC (map flatten_block
+     [mkAB [] [SAssign [var 0 KLinear] (XCall [] [])] [2]; mkAB [] [] []; mkAB [PLeaf (lf 0 KLinear)] [] [2]])
+     0 1 false [].
+Theorem complete_needs_h_exit :
+  check_cfg true wt_cfg [] = RejUnused 0 [0] /\ ~ reaches_exit wt_cfg 0 /\
+  (forall rest k, is_walk wt_cfg 0 rest -> exists t, run_path wt_cfg empty_tokens 0 rest k = Fine t /\
+                                                   last rest 0 <> 1).
+Proof.
+  split; [vm_compute; reflexivity|]. split.
+  - assert (G : forall b, reaches_exit wt_cfg b -> b = 1).
+    { intros b H. induction H as [|b n Hn Hr IH]; [reflexivity|]. subst n.
+      destruct b as [|[|[|b]]]; [ | reflexivity | | ].
+      - simpl in Hn. destruct Hn as [Hn | []]. discriminate.
+      - simpl in Hn. destruct Hn as [Hn | []]. discriminate.
+      - unfold nth_block in Hn. simpl in Hn. destruct b; destruct Hn. }
+    intros H. apply G in H. discriminate.
+  - assert (G : forall rest k, is_walk wt_cfg 2 rest ->
+               exists t, run_path wt_cfg (upd empty_tokens 0 true) 2 rest k = Fine t /\ last rest 2 <> 1).
+    { induction rest as [|n r IH]; intros k Hw.
+      - eexists. split; [destruct k; reflexivity | discriminate].
+      - destruct Hw as [Hn Hw]. simpl in Hn. destruct Hn as [Hn | []]. subst n.
+        destruct (IH k Hw) as [t [A B]]. exists t. split; [exact A|]. rewrite last_cons_default. exact B. }
+    intros rest k Hw. destruct rest as [|n r].
+    + destruct k as [|[|[|k]]]; eexists; (split; [reflexivity | discriminate]).
+    + destruct Hw as [Hn Hw]. simpl in Hn. destruct Hn as [Hn | []]. subst n.
+      destruct (G r k Hw) as [t [A B]]. exists t. split; [exact A|]. rewrite last_cons_default. exact B.
+Qed.
+Print Assumptions complete_needs_h_exit.
